@@ -53,6 +53,9 @@ fn text(max_long: usize) -> BoxedStrategy<String> {
         1 => Just("a\0b".to_string()),
         // text that reads like a typed value: a reporter transmits it as the text it is
         2 => proptest::sample::select(vec!["007", "+5", "-0", "42", "true", "false", "null", "1e3", "NaN", " 7", "0x1f", "1.50", "9223372036854775808", "TRUE", "[]", "{}", "\"q\""]).prop_map(|s| s.to_string()),
+        // text that a backend gives a meaning of its own (semantic-convention keys, field names
+        // of the wire formats): to a reporter it is a key or a value like any other
+        2 => proptest::sample::select(vec!["span.kind", "span.status_code", "span.status_description", "otel.status_code", "otel.status_description", "otel.library.name", "error", "service.name", "service", "resource", "name", "type", "span.type", "http.status_code", "sampling.priority", "_sampling_priority_v1", "_dd.p.dm", "jaeger-debug-id", "component", "language", "server", "client", "error_code", "meta", "metrics"]).prop_map(|s| s.to_string()),
         1 => Just("😀𝔘é中\u{301}".to_string()),
         1 => (0usize..=max_long).prop_map(|n| "xyzé".repeat(n / 5)),
     ]
@@ -95,6 +98,24 @@ fn rec(max_long: usize) -> BoxedStrategy<Rec> {
 }
 
 fn batch_c19() -> BoxedStrategy<Vec<Rec>> {
+    // a collector cycle hands over the records of a few live traces interleaved: in half of the
+    // batches the records share the trace ids of the first 1-3 of them
+    (batch_c19_free(), prop_oneof![4 => Just(0usize), 1 => Just(1usize), 3 => 2usize..4], any::<u16>())
+        .prop_map(|(mut v, k, salt)| {
+            if k > 0 && v.len() > k {
+                let ids: Vec<(u64, u64)> = v.iter().take(k).map(|r| (r.trace_hi, r.trace_lo)).collect();
+                for (i, r) in v.iter_mut().enumerate() {
+                    let (hi, lo) = ids[(i * 5 + (salt as usize >> (i % 13)) % 3) % k];
+                    r.trace_hi = hi;
+                    r.trace_lo = lo;
+                }
+            }
+            v
+        })
+        .boxed()
+}
+
+fn batch_c19_free() -> BoxedStrategy<Vec<Rec>> {
     prop_oneof![
         6 => proptest::collection::vec(rec(300), 0..8),
         3 => proptest::collection::vec(rec(2000), 0..40),
@@ -114,6 +135,15 @@ fn batch_c19() -> BoxedStrategy<Vec<Rec>> {
 }
 
 fn plan_strategy() -> BoxedStrategy<Plan> {
+    (plan_strategy_sizes(), prop_oneof![3 => Just(0u8), 2 => Just(1u8), 3 => 2u8..5])
+        .prop_map(|(mut p, t)| {
+            p.traces = t;
+            p
+        })
+        .boxed()
+}
+
+fn plan_strategy_sizes() -> BoxedStrategy<Plan> {
     let item = prop_oneof![
         8 => (Just(0u8), any::<u16>()),  // tiny
         3 => (Just(1u8), any::<u16>()),  // medium 1-3 KB
@@ -129,11 +159,11 @@ fn plan_strategy() -> BoxedStrategy<Plan> {
         1 => (Just(1u8), any::<u16>()),
     ];
     prop_oneof![
-        2 => (proptest::collection::vec(heavy, 3..12), -20i8..20).prop_map(|(items, straddle)| Plan { items, straddle }),
-        3 => (proptest::collection::vec(medium, 2..5), -20i8..20).prop_map(|(items, straddle)| Plan { items, straddle }),
-        6 => (proptest::collection::vec(item.clone(), 1..40), -20i8..20).prop_map(|(items, straddle)| Plan { items, straddle }),
-        2 => (proptest::collection::vec(item.clone(), 40..160), -20i8..20).prop_map(|(items, straddle)| Plan { items, straddle }),
-        1 => (proptest::collection::vec((Just(0u8), any::<u16>()), 100..600), -20i8..20).prop_map(|(items, straddle)| Plan { items, straddle }),
+        2 => (proptest::collection::vec(heavy, 3..12), -20i8..20).prop_map(|(items, straddle)| Plan { items, straddle, traces: 0 }),
+        3 => (proptest::collection::vec(medium, 2..5), -20i8..20).prop_map(|(items, straddle)| Plan { items, straddle, traces: 0 }),
+        6 => (proptest::collection::vec(item.clone(), 1..40), -20i8..20).prop_map(|(items, straddle)| Plan { items, straddle, traces: 0 }),
+        2 => (proptest::collection::vec(item.clone(), 40..160), -20i8..20).prop_map(|(items, straddle)| Plan { items, straddle, traces: 0 }),
+        1 => (proptest::collection::vec((Just(0u8), any::<u16>()), 100..600), -20i8..20).prop_map(|(items, straddle)| Plan { items, straddle, traces: 0 }),
         // many small spans and one or two medium ones whose total is steered onto the limit, a
         // byte or two either way: one datagram of >= 15 spans that just fits, or just does not
         3 => (proptest::collection::vec((Just(0u8), any::<u16>()), 15..60), proptest::collection::vec((Just(1u8), any::<u16>()), 1..3), -3i8..4, any::<u16>())
@@ -142,7 +172,7 @@ fn plan_strategy() -> BoxedStrategy<Plan> {
                     let pos = (at as usize + k * 7) % (items.len() + 1);
                     items.insert(pos, m);
                 }
-                Plan { items, straddle }
+                Plan { items, straddle, traces: 0 }
             }),
     ]
     .boxed()
@@ -603,7 +633,7 @@ fn case_strategy_inner(variant: &str) -> BoxedStrategy<Case> {
                 3 => proptest::collection::vec(prop_oneof![3 => (Just(3u8), any::<u16>()), 1 => (Just(0u8), any::<u16>()), 1 => (Just(2u8), any::<u16>())], 1..4),
                 1 => proptest::collection::vec((Just(0u8), any::<u16>()), 1..300),
             ]
-            .prop_map(|items| Plan { items, straddle: 0 });
+            .prop_map(|items| Plan { items, straddle: 0, traces: 0 });
             (plan_strategy(), prop_oneof![3 => Just(vec![]).boxed(), 2 => proptest::collection::vec(small_heavy, 1..3).boxed()])
                 .prop_map(|(plan, prior)| Case::JaegerPlan { plan, prior })
                 .boxed()
